@@ -245,7 +245,17 @@ func (s *Cron) Add(j *Job) error {
 		return err
 	}
 
-	return s.DB.Update(f)
+	jobs := "jobs" + s.Partition(j.Account)
+	return s.DB.Update(func(tx *bolt.Tx) error {
+		// The check above ran in a transaction of its own.  Of
+		// several Adds of one id at the same time all passed it,
+		// and each filed an entry in the time index (one of them
+		// is removed with the job, the others fire anyway).
+		if js := tx.Bucket([]byte(jobs)).Get([]byte(j.aid)); 0 < len(js) {
+			return Exists
+		}
+		return f(tx)
+	})
 }
 
 func (s *Cron) update(j *Job) (func(*bolt.Tx) error, error) {
